@@ -473,7 +473,13 @@ def do_query(m, ref, medges, eid, sort_on, q, ctx, where):
             if ok and ok2:
                 # (C13 also feeds surfaces with two faces on one vertex set, e.g. a pillow of two triangles: the key of a face cannot
                 # tell them apart, so any face with exactly these vertices is a right answer)
-                same = [g for g in range(nF) if key(ref.F[g]) == key(ref.F[f])]
+                bykey = getattr(ref, "_faces_by_key", None)
+                if bykey is None:
+                    bykey = {}
+                    for g2, fl2 in enumerate(ref.F):
+                        bykey.setdefault(key(fl2), []).append(g2)
+                    ref._faces_by_key = bykey
+                same = bykey[key(ref.F[f])]
                 ctx.check(r in same and r2 in same, sig, f"{where}: face_id(*face_to_vertices({f})) = {r!r}, face_id(face_to_vertices({f})) = {r2!r}, faces with these vertices: {same}")
             i = b % len(row)
             ok, r = ctx.call(sig, C.in_face_index, f, row[i])
